@@ -1,4 +1,5 @@
 From Coq Require Import Extraction ExtrOcamlBasic.
-From MW Require Import Common.Str C19.Gen_writers C19.Model.
+From MW Require Import Common.Str C19.Gen_writers C19.Model C19.ModelReq.
 Extraction "../ocaml/c19/c19_model.ml" status do_render_status content_disposition cd_values
-  apply_op empty_store qinfo_of strip py_isspace render_jobid makezip_jobid writers.
+  apply_op empty_store qinfo_of strip py_isspace render_jobid makezip_jobid writers
+  exec_reads.
